@@ -5,9 +5,11 @@ from .. import pm, report
 from ..pm import U
 from . import common as C
 
-TECHNIQUE = "static analysis: premises of a partition lemma (ceiling form of the chunk size, affine start/end arithmetic over the same quantities, one worker per slice), sibling agreement of the sequential and the worker search, order-insensitive reduction (canonical key -> set de-duplication -> total sort, re-using the C05 obligations), use-analysis of every set-derived value that can reach the text report"
+TECHNIQUE = (
+    'static analysis: premises of a partition lemma (ceiling form of the chunk size, affine start/end arithmetic over the same quantities, one worker per slice), sibling agreement of the sequential and the worker search, order-insensitive reduction (canonical key -> set de-duplication -> total sort, re-using the C05 obligations), use-analysis of every set-derived value that can reach the text report ; origin analysis of every store into the fields the machine-readable output serialises (no set-ordered sequence)'
+)
 EXPLANATION = (
-    'R1 (lemma: with W = ceil(n/c) the slices [t*W, min((t+1)*W, n)), t = 0..c-1, are disjoint and cover [0, n)): W is one of the accepted ceiling forms of (len(kernel), cpu_count()); starts/ends have exactly those affine forms over the same W, n, c; the slices are taken from the list the sequential branch iterates; one process per slice receiving the shared list, its slice, the doubled graph and the offset. Floor-division forms are violations (tail dropped). R2: worker body and sequential loop issue the same path query (graph, source, target), neither skips a root nor bounds the depth below the longest possible cycle (C05-R3), and both add every path found. R3: from the merge point to the return the data passes only through canonical key -> set-based de-duplication -> total sort (the C05-R4/R6 obligations). R4: no set-ordered sequence reaches the text report other than through membership tests or sorted iteration.'
+    "R1 (lemma: with W = ceil(n/c) the slices [t*W, min((t+1)*W, n)), t = 0..c-1, are disjoint and cover [0, n)): W is one of the accepted ceiling forms of (len(kernel), cpu_count()); starts/ends have exactly those affine forms over the same W, n, c; the slices are taken from the list the sequential branch iterates; one process per slice receiving the shared list, its slice, the doubled graph and the offset. Floor-division forms are violations (tail dropped). R2: worker body and sequential loop issue the same path query (graph, source, target), neither skips a root nor bounds the depth below the longest possible cycle (C05-R3), and both add every path found. R3: from the merge point to the return the data passes only through canonical key -> set-based de-duplication -> total sort (the C05-R4/R6 obligations). R4: no set-ordered sequence reaches the text report other than through membership tests or sorted iteration. R5: no list whose order is the iteration order of a set (list(set(x)), list({...}), iteration over a set) is stored into an instruction-form field that full_analysis_dict serialises: for string elements that order changes with the interpreter's hash seed, so two runs of the same --yaml-out command differ."
 )
 NOT_DECIDED = "Actual schedules and byte-identical repetition of the report (needs runs under perturbed schedules)."
 ASSUMPTIONS = ["Manager().list() preserves every element appended by a worker that was not killed"]
